@@ -107,6 +107,40 @@ def _ob_nopockets(nmax, grid=False):
     return ob
 
 
+def _ob_sawtooth(pockets, above):
+    """Several separate pockets on one side of the pinch (saw-tooth GCC): minima strictly falling towards the pinch, every
+    maximum above the preceding minimum.  Fixing that order pattern keeps the path count small at 2*pockets+1 rows."""
+    def ob(h):
+        n = 2 * pockets + 1
+        pt, d = wf_table(h, n, with_np=False)
+        T, H = d[PT.T.value], d[PT.H_NET.value]
+        for i in range(n):
+            h.assume(T[i] == 10.0 * (n - i))
+            h.assume(And(H[i] >= 0, H[i] <= 1000))
+            for j in range(i):
+                h.assume(Or(H[i] == H[j], H[i] - H[j] >= 1, H[j] - H[i] >= 1))
+        seq = list(range(n)) if above else list(range(n - 1, -1, -1))      # walking towards the pinch
+        h.assume(H[seq[-1]] == 0)
+        for k in range(pockets):
+            lo, hi, nxt = seq[2 * k], seq[2 * k + 1], seq[2 * k + 2]
+            h.assume(And(H[hi] > H[lo], H[nxt] < H[lo]))
+        old = rows(pt)
+        gm.get_GCC_without_pockets(pt)
+        m = len(pt)
+        Hn = [pt.loc[j, PT.H_NET.value] for j in range(m)]
+        NP = [pt.loc[j, PT.H_NET_NP.value] for j in range(m)]
+        check_same_curve(h, old, pt, False, tag="gcc.")
+        h.check("one_breakpoint_per_pocket", m == n + pockets)
+        order = list(range(m)) if above else list(range(m - 1, -1, -1))
+        run = None
+        for j in order:
+            run = Hn[j] if run is None else smin(run, Hn[j])
+            h.check("np_is_min_envelope", h.eq(NP[j], run))
+        for a, b in zip(order, order[1:]):
+            h.check("breakpoint_where_pocket_closes", Implies(NP[b] < NP[a], NP[a] == Hn[a]))
+    return ob
+
+
 def _ob_split(nmax):
     def ob(h):
         n = h.choice("rows", list(range(2, nmax + 1)))
@@ -165,6 +199,11 @@ def obligations():
                  rows=[5, 6], pinch_row=[0, 1, 2, 3, 4, 5])
     obs += split(Obligation("C07.np.breakpoints.large.b", _ob_nopockets(6, grid=True), kind="bounded", tier="thorough", bound="GCCs of 6 rows on a fixed grid", functions=fs,
                             max_paths=5000000, timeout_ms=20000), rows=[6], pinch_row=[0, 1, 2, 3, 4, 5])
+    for above in (True, False):
+        for k in (3, 4, 5):
+            obs.append(Obligation(f"C07.np.sawtooth{k}.{'above' if above else 'below'}.b", _ob_sawtooth(k, above), kind="bounded", functions=fs, max_paths=400000, timeout_ms=20000,
+                                  bound=f"{2 * k + 1}-row saw-tooth GCCs with {k} separate pockets on one side of the pinch (fixed 10 K grid, enthalpies symbolic within that order pattern)",
+                                  doc="ENVELOPE and one BREAKPOINT per pocket when several pockets precede the pinch"))
     obs += [
         Obligation("C07.split.b", _ob_split(6), kind="bounded", bound="V-shaped profiles of 2..6 rows, pinch on any row", functions=[gm.get_seperated_gcc_heat_load_profiles],
                    expect=("cooling_profile_monotone", "heating_profile_starts_at_Qh"), max_paths=200000),
